@@ -82,6 +82,8 @@ def gen(rng, tier):
                     x = rng.choice(vals)
                     if x not in v:
                         v.append(x)
+                if len(v) >= 2 and rng.random() < 0.12:
+                    v.append(v[0])  # a value listed twice is data too (Dbxref=A,B,A)
             attrs.append([kk, v])
         if d["repeat"]:
             # every line shows the repeated-keys convention
